@@ -35,6 +35,13 @@ HEADERS = """
 #include <unifex/via.hpp>
 #include <unifex/when_all.hpp>
 #include <unifex/with_query_value.hpp>
+#include <unifex/filter_stream.hpp>
+#include <unifex/for_each.hpp>
+#include <unifex/reduce_stream.hpp>
+#include <unifex/take_until.hpp>
+#include <unifex/transform_stream.hpp>
+#include <unifex/type_erased_stream.hpp>
+#include <unifex/via_stream.hpp>
 """
 
 # weight tables -------------------------------------------------------------
@@ -293,12 +300,34 @@ def cpp(s):
             cpp(s["kid"]), s["fn"], cpp(s["body"]))
     if op == "repeat_effect_until":
         return U + "repeat_effect_until(%s, vf::pred(%d, %d))" % (cpp(s["kid"]), s["fn"], s["until"])
+    if op == "reduce_stream":
+        return U + "reduce_stream(%s, vf::val{%d}, vf::fn(%d, vf::ret_val{}))" % (cpp_stream(s["stream"]), s["init"], s["fn"])
+    if op == "for_each":
+        return U + "for_each(%s, vf::fn(%d, vf::ret_void{}))" % (cpp_stream(s["stream"]), s["fn"])
     raise AssertionError(op)
+
+
+def cpp_stream(s):
+    k = s["s"]
+    U = "unifex::"
+    if k == "probe":
+        return "vf::probe_stream{%d}" % s["sid"]
+    if k == "transform":
+        return U + "transform_stream(%s, vf::fn(%d, vf::ret_val{}))" % (cpp_stream(s["src"]), s["fn"])
+    if k == "filter":
+        return U + "filter_stream(%s, vf::fpred(%d, %du))" % (cpp_stream(s["src"]), s["fn"], s["mask"])
+    if k == "via_stream":
+        return U + "via_stream(vf::msched{%d}, %s)" % (s["sched"], cpp_stream(s["src"]))
+    if k == "type_erase":
+        return U + "type_erase<vf::val>(%s)" % cpp_stream(s["src"])
+    if k == "take_until":
+        return U + "take_until(%s, %s)" % (cpp_stream(s["src"]), cpp_stream(s["trig"]))
+    raise AssertionError(k)
 
 
 def walk(s):
     yield s
-    for k in ("kid", "body", "completion", "trigger"):
+    for k in ("kid", "body", "completion", "trigger", "stream", "src", "trig"):
         if k in s:
             yield from walk(s[k])
     for k in s.get("kids", []):
@@ -309,11 +338,14 @@ def leaves(s):
     """leaf descriptors incl. scheduler leaves: list of dict(id, sd, vt, inline, is_sched)"""
     out = []
     for n in walk(s):
-        if n["op"] == "leaf":
+        if n.get("op") == "leaf":
             out.append({"id": n["id"], "sd": n.get("sd", 1), "inline": n.get("blocking") == "inline",
                         "is_sched": 0})
-        elif n["op"] in ("via", "on"):
+        elif n.get("op") in ("via", "on") or n.get("s") == "via_stream":
             out.append({"id": n["sched"], "sd": 1, "inline": False, "is_sched": 1})
+        elif n.get("s") == "probe":
+            out.append({"id": n["sid"] * 10 + 1, "sd": 1, "inline": False, "is_sched": 0, "stream_next": n["sid"]})
+            out.append({"id": n["sid"] * 10 + 2, "sd": 1, "inline": False, "is_sched": 0, "stream_cleanup": n["sid"]})
     return out
 
 
@@ -328,7 +360,7 @@ def fns(s):
 
 
 def has_op(s, ops):
-    return any(n["op"] in ops for n in walk(s))
+    return any(n.get("op") in ops for n in walk(s))
 
 
 def program_cpp(pid, spec, tokkind, lv_ok=False):
